@@ -36,9 +36,13 @@ Value& SIGNExpression::value(Context & ctx) const
   case Type::NO_TYPE:
     break;
   case Type::INTEGER:
+    if (val.isNull())
+      return val;
     v = Value(Integer(*val.integer() < 0 ? -1 : *val.integer() > 0 ? 1 : 0));
     break;
   case Type::NUMERIC:
+    if (val.isNull())
+      return val;
     v = Value(Numeric(*val.numeric() < 0.0 ? -1.0 : *val.numeric() > 0.0 ? 1.0 : 0.0));
     break;
   default:
